@@ -1044,7 +1044,7 @@ def whose_fragments(seq, raw_hex):
 def expected_rest(seq, spec_per):
     """What the reader must still hold after the sequence, by the harness's own record: slot -> {cell: raw} of the messages that
     are not complete, and the wrapper line that no delivery has consumed."""
-    live, count, pending = {}, {}, None
+    live, pending = {}, None
     for d, due in zip(seq, spec_per):
         if d['kind'] == 'wrapper':
             pending = d
@@ -1528,7 +1528,9 @@ def small_scope(ctx, want, shapes, frontends, with_wrappers=True, limit=None, de
                     cache.clear()
             if full:
                 rep.exhaustive.append(f'all {n_orders} arrival orders of messages with fragment counts {shape} through '
-                                      + '/'.join(frontends))
+                                      + '/'.join(frontends)
+                                      + (' (each order also into the bounded NMEAQueue, k = 1 with the directed consumer and one '
+                                         'PRNG-drawn (k, consumer) pair)' if 'NMEAQueue' in frontends else ''))
             else:
                 rep.count(f'sampled-orders:{shape}', limit)
     finally:
